@@ -329,6 +329,25 @@ fn zones_text(text: &str, case: &mut Case) -> Result<(), String> {
 fn check_at(expr: &str, tz: Tz, utc: NaiveDateTime) -> Result<(), String> {
     let plain = OpeningHours::parse(expr).map_err(|e| e.to_string())?;
     let tz_oh = plain.clone().with_context(Context::default().with_locale(TzLocation::new(tz)));
+    // chrono's representation of a leap second (second 59 with more than 1e9 nanoseconds) is an
+    // instant like any other: same wall-clock minute
+    // (not next to a transition, where the 61st second of a minute has no agreed meaning)
+    if utc.second() == 59 && offset_at(tz, utc - Duration::seconds(3)) == offset_at(tz, utc + Duration::seconds(3)) {
+        use chrono::Timelike as _;
+        if let Some(leap) = utc.with_nanosecond(1_500_000_000) {
+            let inst = tz.from_utc_datetime(&leap);
+            let naive = inst.naive_local();
+            let (a, b) = (guard(|| tz_oh.state(inst)).map_err(|p| format!("`{expr}` in {tz}: state({inst:?}) panicked: {p}"))?, plain.state(naive));
+            if a != b {
+                return Err(format!("`{expr}` in {tz}: state at the leap-second instant {inst:?} = {a:?} but the expression is {b:?} at the wall-clock time {naive:?}"));
+            }
+            if let Some(first) = guard(|| tz_oh.iter_from(inst).next()).map_err(|p| format!("`{expr}` in {tz}: iter_from({inst:?}) panicked: {p}"))? {
+                if first.range.start != inst {
+                    return Err(format!("`{expr}` in {tz}: iter_from at the leap-second instant {inst:?} starts at {:?}", first.range.start));
+                }
+            }
+        }
+    }
     let inst = tz.from_utc_datetime(&utc);
     let naive = inst.naive_local();
     let (a, b) = (guard(|| tz_oh.state(inst)).map_err(|p| format!("`{expr}` in {tz}: state({inst}) panicked: {p}"))?, plain.state(naive));
@@ -403,13 +422,17 @@ fn check_zone_transitions(index: u64, acc: &mut Acc) {
         let mid = mid - Duration::seconds(i64::from(mid.second()));
         let inside = if mid >= lo && mid < hi { mid } else { lo + Duration::seconds(60 - i64::from(lo.second()) % 60) };
         let close = i > 0 && *t - ts[i - 1] < Duration::hours(30) || i + 1 < ts.len() && ts[i + 1] - *t < Duration::hours(30);
+        // ... and, since the default sun hours (06:00, 07:00, 19:00, 20:00 without coordinates) are
+        // wall-clock times like any other, spans built on them: some zones skipped exactly those
         let exprs = [
             format!("{}-{}", hhmm(inside), hhmm(inside + Duration::hours(7))),
             format!("00:00-{} open, {}-{} unknown", hhmm(inside), hhmm(inside), hhmm(inside + Duration::minutes(30))),
+            "(sunrise+01:00)-12:00; sunset-02:00 unknown".to_string(),
+            "10:00-(dusk-03:00); (dawn-00:30)-(dawn+00:15) unknown".to_string(),
         ];
         for expr in &exprs {
-            for delta in [-70i64, -10, 0, 10] {
-                let utc = *t + Duration::minutes(delta);
+            for delta in [-70i64 * 60, -10 * 60, 0, 10 * 60, -1, 7 * 3600 + 59] {
+                let utc = *t + Duration::seconds(delta);
                 acc.case(true);
                 if let Err(m) = check_at(expr, tz, utc) {
                     return acc.fail("zones", format!("{expr} @ {tz} @ {}", utc.format("%Y-%m-%dT%H:%M:%S")), m);
@@ -429,7 +452,7 @@ fn check_zone_transitions(index: u64, acc: &mut Acc) {
 fn extra(_tier: Tier, _seed: u64) -> Vec<SubOutcome> {
     vec![par_enumerate(
         "all_transitions",
-        "exhaustive over the tz database: every offset transition 1900..2045 of each of the 596 zones (6 h scan, re-scanned at 5 min steps over +-36 h around every hit) x 2 expressions with a state change on a wall-clock minute inside the skipped (gap) or repeated (fold) stretch x 4 instants (70 and 10 min before, at, 10 min after the transition): state, next_change and the intervals of the next 9 hours against the evaluation without location and the independent local->instant mapping; every case is non-trivial (a gap or a fold is involved)",
+        "exhaustive over the tz database: every offset transition 1900..2045 of each of the 596 zones (6 h scan, re-scanned at 5 min steps over +-36 h around every hit) x 4 expressions (2 with a state change on a wall-clock minute inside the skipped (gap) or repeated (fold) stretch, 2 built on the default sun hours with offsets) x 6 instants (70 and 10 min before, 1 s before, at, 10 min and 7 h 00 min 59 s after the transition; instants at second 59 are also asked as chrono leap seconds): state, next_change and the intervals of the next 9 hours against the evaluation without location and the independent local->instant mapping; every case is non-trivial (a gap or a fold is involved)",
         chrono_tz::TZ_VARIANTS.len() as u64,
         check_zone_transitions,
     )]
